@@ -13,6 +13,8 @@ import (
 	"reflect"
 	"sort"
 	"strings"
+	"sync"
+	"time"
 
 	"golang.org/x/crypto/ssh"
 
@@ -270,7 +272,7 @@ func c02Run(c *ev.Ctx, k c02Case) {
 
 func checkC02(c *ev.Ctx) {
 	defer cleanupScratch()
-	c.Rule("real gensign.Run + regular.Handler, honest agent, recording CA; the signing request received by the CA is compared with a reference record built from server-side inputs: strings {plain, JSON metacharacters, <>&, non-ASCII, 200 chars, empty, literal JSON/HTML escape texts (\\u0026, \\\\u003c, &lt;, \\n), U+2028/2029, control characters} for login/user/host/IP/transaction id varied one field at a time and jointly; 10 login names that interact with the key-file lookup ('.pub' suffixes, dots, case) x directory layouts {<name>.pub, bare <name>, both} x CA algorithm{0,1,2,3,4,99}; 5 login names for which only near-miss key files of other users exist (other case, prefix, suffix); handler configurations: validity{1,3600,43200,315360000,2^32+43200} x every non-colliding subset (size<=3; thorough <=4) of key_identifiers keys {rsa,RSA,Ecdsa,ed25519,default,unknown,1,3,99} x algorithm; two consecutive requests per case; client-declared signature algorithm 0..17 x touch-to-SSH x requested algorithm {omitted,1,3,4} x 3 slot configurations; every sequence of 1..4 requests over 5 algorithms (3 configured, 2 not) on one long-lived handler; sequences in which the agent refuses the insertion of one request's new private key (a certified key pair was never offered to an earlier requester's agent: add-identity requests are read off the wire); a batch of three requests authenticated and generated on one handler before anything is signed (what Generate returned for an earlier request still describes that request). non-trivial = request signed and compared; distinct by case")
+	c.Rule("real gensign.Run + regular.Handler, honest agent, recording CA; the signing request received by the CA is compared with a reference record built from server-side inputs: strings {plain, JSON metacharacters, <>&, non-ASCII, 200 chars, empty, literal JSON/HTML escape texts (\\u0026, \\\\u003c, &lt;, \\n), U+2028/2029, control characters} for login/user/host/IP/transaction id varied one field at a time and jointly; 10 login names that interact with the key-file lookup ('.pub' suffixes, dots, case) x directory layouts {<name>.pub, bare <name>, both} x CA algorithm{0,1,2,3,4,99}; 5 login names for which only near-miss key files of other users exist (other case, prefix, suffix); handler configurations: validity{1,3600,43200,315360000,2^32+43200} x every non-colliding subset (size<=3; thorough <=4) of key_identifiers keys {rsa,RSA,Ecdsa,ed25519,default,unknown,1,3,99} x algorithm; two consecutive requests per case; client-declared signature algorithm 0..17 x touch-to-SSH x requested algorithm {omitted,1,3,4} x 3 slot configurations; every sequence of 1..4 requests over 5 algorithms (3 configured, 2 not) on one long-lived handler; sequences in which the agent refuses the insertion of one request's new private key (a certified key pair was never offered to an earlier requester's agent: add-identity requests are read off the wire); a batch of three requests authenticated and generated on one handler before anything is signed (what Generate returned for an earlier request still describes that request); a declared side pass in which two requests overlap on one handler (the first parked inside its key insertion by an event-driven gate). non-trivial = request signed and compared; distinct by case")
 	c.Assume("key_identifiers names are normalised case-insensitively or numerically (reference table in the harness)")
 	if c.ReplayCase != nil {
 		var k c02Case
@@ -440,7 +442,110 @@ func checkC02(c *ev.Ctx) {
 		n++
 	}
 	c02Batch(c)
-	c.Set("cases", n+2)
+	c02Overlap(c)
+	c.Set("cases", n+3)
+}
+
+// c02Overlap is a declared side pass (two goroutines; C02's quantifier is over requests and sequences): two requests on
+// ONE handler overlap - the first is parked inside the insertion of its new private key (the agent does not answer yet)
+// while the second starts; then the agent answers. Each signing request still describes its own request. The gate is
+// event-driven; the only timing is a 300 ms head start for the second request.
+func c02Overlap(c *ev.Ctx) {
+	c.Eval()
+	e := newEnv(envOpt{KeyDir: "pub", LogName: "alice", Validity: 43200, KeyIDs: map[string]string{"default": "slot"}, Behaviour: "honest", AgentHasKey: true})
+	defer e.close()
+	if e.hErr != nil {
+		c.Violation("C02:harness:handler", e.hErr.Error(), nil)
+		return
+	}
+	k := map[string]any{"overlap": true}
+	arrived, gate := make(chan struct{}), make(chan struct{})
+	first := true
+	old := e.ua.OnRequest
+	var mu sync.Mutex
+	e.ua.OnRequest = func(idx int, frame []byte, fault string) {
+		if old != nil {
+			old(idx, frame, fault)
+		}
+		mu.Lock()
+		park := first && len(frame) > 0 && (frame[0] == 25 || frame[0] == 17)
+		if park {
+			first = false
+		}
+		mu.Unlock()
+		if park {
+			close(arrived)
+			<-gate // the agent takes its time over the first request's key insertion
+		}
+	}
+	type out struct {
+		p    *csr.ReqParam
+		keys []csr.AgentKey
+		err  error
+		pn   string
+	}
+	mk := func(i int) *csr.ReqParam {
+		p := defaultParams("alice")
+		p.TransID, p.ReqUser, p.ReqHost, p.ClientIP = fmt.Sprintf("%010x", 0xc0+i), fmt.Sprintf("ovl%d", i), fmt.Sprintf("ovl%d.example", i), fmt.Sprintf("10.9.0.%d", i+1)
+		p.Attrs.Username, p.Attrs.Hostname = p.ReqUser, p.ReqHost
+		return p
+	}
+	res := make(chan out, 2)
+	// both requests are authenticated first (the front end has both in hand), then generated concurrently
+	p0, p1 := mk(0), mk(1)
+	for _, p := range []*csr.ReqParam{p0, p1} {
+		var aerr error
+		if pn := ev.Guard(func() { aerr = e.handler.Authenticate(p) }); pn != "" || aerr != nil {
+			c.Violation("C02:configured-request-fails:overlap", fmt.Sprintf("authentication of %s failed: %v %s", p.TransID, aerr, pn), k)
+			return
+		}
+	}
+	run := func(p *csr.ReqParam) {
+		o := out{p: p}
+		o.pn = ev.Guard(func() { o.keys, o.err = e.handler.Generate(p) })
+		res <- o
+	}
+	go run(p0)
+	select {
+	case <-arrived:
+	case o := <-res:
+		close(gate)
+		c.Violation("C02:configured-request-fails:overlap", fmt.Sprintf("the first request ended before its key insertion: %v %s", o.err, o.pn), k)
+		return
+	case <-time.After(60 * time.Second):
+		close(gate)
+		c.Cap("overlap side pass: the first request did not reach its key insertion within 60 s")
+		return
+	}
+	go run(p1)
+	time.Sleep(300 * time.Millisecond)
+	close(gate)
+	for i := 0; i < 2; i++ {
+		select {
+		case o := <-res:
+			if o.pn != "" {
+				c.Violation("C02:panic-escaped:"+ev.PanicSite(o.pn), o.pn, k)
+				return
+			}
+			if o.err != nil || len(o.keys) == 0 {
+				c.Violation("C02:configured-request-fails:overlap", fmt.Sprintf("request %s failed while overlapping another request on the same handler: %v", o.p.TransID, o.err), k)
+				return
+			}
+			for _, ak := range o.keys {
+				for _, req := range ak.CSRs() {
+					if !reflect.DeepEqual(req.Principals, []string{"alice"}) || !strings.Contains(req.KeyId, o.p.TransID) || !strings.Contains(req.KeyId, o.p.ReqUser) || !strings.Contains(req.KeyId, o.p.ReqHost) || !strings.Contains(req.KeyId, o.p.ClientIP) {
+						c.Violation("C02:overlap:request-describes-the-other-request", fmt.Sprintf("two requests overlapped on one handler; the signing request of %s (user %s, host %s, address %s) reads principals=%q keyid=%s", o.p.TransID, o.p.ReqUser, o.p.ReqHost, o.p.ClientIP, req.Principals, req.KeyId), k)
+						return
+					}
+				}
+			}
+		case <-time.After(120 * time.Second):
+			c.Violation("C02:overlap:requests-never-complete", "two overlapping requests on one handler did not both return within 120 s of the agent answering", k)
+			return
+		}
+	}
+	c.Outcome("overlap/2")
+	c.Nontrivial("overlap")
 }
 
 // c02Batch: a front end that authenticates and generates for several requests on ONE handler before it has anything
